@@ -286,6 +286,35 @@ CLAIMED = {
              "every thread's affinity lies inside the process's allowed set, malformed specifications fall back or stop with a diagnostic; "
              "signals and sanitizer reports are violations.",
         design_ref="5/C40"),
+    "C03": dict(
+        engine="dtd(E6)+hypothesis",
+        technique="Hypothesis-generated DTD insertion scripts executed by a C script interpreter (batched), compared task by task with a sequential reference interpreter; in-process watchdog; solitary replays",
+        text="Scripts of up to 60 insertions over 1..8 tiles (read / write / read-write, priorities, flush, wait, several pools and epochs, "
+             "task-inserting tasks, window x threshold, 7 schedulers x 1..16 threads, 1..2 ranks with affinity placement). Oracle: every task "
+             "runs exactly once, observes exactly the input values the sequential execution in insertion order gives it, and flushed tiles "
+             "hold the sequential result on their owner. Seven defect classes found on the unchanged tree are excluded by construction and replayed.",
+        design_ref="5/C03"),
+    "C04": dict(
+        engine="dtd(E6)+hypothesis",
+        technique="generated reader-heavy DTD scripts with spinning bodies on 4..16 threads; per-tile occupancy counters and sequence-stamp oracle; measured reader overlap",
+        text="Bodies keep per-tile reader/writer occupancy counters and spin a generated time to widen overlap windows. Oracle: a writer observes "
+             "no other reader or writer during its whole body, a reader observes no writer, and a writer starts after every reader inserted "
+             "before it on that tile completed; the evidence counts how many scripts showed two readers of one tile really overlapping.",
+        design_ref="5/C04"),
+    "C17": dict(
+        engine="dtd(E6)+mpi(E7)+hypothesis",
+        technique="generated two-rank DTD scripts with random affinity ending in flush / flush_all + wait; owner-copy oracle against the sequential reference",
+        text="The last writer of a tile is usually not its owner. Oracle: after parsec_dtd_data_flush / flush_all and the wait, the owning "
+             "process's copy of each flushed tile holds the value written by the last writing task in insertion order.",
+        design_ref="5/C17"),
+    "C06": dict(
+        engine="hypothesis+driver",
+        technique="Hypothesis-generated start/add/wait/test histories over 1..5 epochs with PTG and DTD pools, pools added from task bodies and completion callbacks; global-stamp oracle",
+        text="A driver executes generated histories on one context. Oracle from global sequence stamps: parsec_context_wait returns only after "
+             "every task of every pool added in the epoch (transitively) completed and no body starts before the next start/add; "
+             "parsec_taskpool_wait returns after that pool's completion callback; every callback runs exactly once after the pool's last task; "
+             "later epochs behave like the first.",
+        design_ref="5/C06"),
     "C23": dict(
         engine="ptg(E5)+hypothesis",
         technique="generated parameter spaces; key distinctness and key_print round-trip oracle on the generated make_key/key_print",
